@@ -219,6 +219,11 @@ var errEmptyMessage = errors.New("empty Message")
 func (mq *MessageQueue) extractOutgoingMessage() (gsmsg.GraphSyncMessage, internalMetadata, error) {
 	// grab outgoing message
 	mq.buildersLk.Lock()
+	// skip builders without content, so that an empty one never hides the
+	// messages queued behind it (the shutdown drain stops at the first error)
+	for len(mq.builders) > 0 && mq.builders[0].Empty() {
+		mq.builders = mq.builders[1:]
+	}
 	if len(mq.builders) == 0 {
 		mq.buildersLk.Unlock()
 		return gsmsg.GraphSyncMessage{}, internalMetadata{}, errEmptyMessage
